@@ -309,12 +309,18 @@ LibQuorum ==
 \* two correct nodes never hold irreversible blocks on conflicting branches
 Agreement == \A i, j \in Nodes : IsAnc(blk, node[i].lib, node[j].lib) \/ IsAnc(blk, node[j].lib, node[i].lib)
 
-\* the status restored by a restart equals the one the node had (which it computed from the blocks):
-\* LIB and proposals; RestoreConfirms is the same for the confirm list above the LIB
+\* the status restored by a restart equals the one the node had computed from the blocks: same LIB, same
+\* last-produced number; a proposal is either unchanged or recomputed from the stored main chain to something
+\* at least as high (H1: the running status can have lost the entry of block 1, the rebuilt one has it again).
+\* What the rebuilt confirm list and proposals are exactly is Load above; the harness compares them.
 IsRestart == lastAct'.name = "Restart"
 RestoreEqualsRecompute ==
   [][IsRestart => LET i == lastAct'.node
-                  IN node'[i].lib = node[i].lib /\ node'[i].pr = node[i].pr /\ node'[i].lpb = node[i].lpb]_vars
+                  IN /\ node'[i].lib = node[i].lib /\ node'[i].lpb = node[i].lpb /\ node'[i].best = node[i].best
+                     /\ \A p \in BP : \/ node'[i].pr[p] = node[i].pr[p]
+                                      \/ /\ IsAnc(blk, node'[i].pr[p], node[i].best)
+                                         /\ No(blk, node'[i].pr[p]) >= No(blk, node[i].pr[p])]_vars
+\* stronger (does NOT hold, H1): the rebuilt confirm list above the LIB is the running one
 RestoreConfirms ==
   [][IsRestart => LET i == lastAct'.node
                   IN Trim(DropLE(node'[i].cf, No(blk, node[i].lib))) = node[i].cf]_vars
